@@ -513,7 +513,8 @@ SPEC = Spec(
         "names/bound data are written only by the placeholder / data-wrapper "
         "handlers, one name is used for argument, binding and code; the parameter "
         "list, kw_defaults and expected_arguments come from one collection; only "
-        "keyword-only parameters. R14-UNSUPPORTED: unsupported kinds raise."),
+        "keyword-only parameters. R14-UNSUPPORTED: unsupported kinds raise. "
+        "R14-CONSUME also: every array-creating emission (zeros, ones, full, *_like) spells out dtype=expr.dtype unless guarded by a test for the default float dtype. R14-UNSUPPORTED also: integer tests on shape components and indices use INT_CLASSES."),
     not_decided=(
         "That the generated function returns NumPy's values (needs running it); "
         "slice re-synthesis correctness; dtype preservation through dropped casts; "
